@@ -158,6 +158,34 @@ finally:
 return opened == [("/o/f.map", "w", "utf-8")] and fp.written == [s]
 '''
 
+OPENFILE = '''
+# the real Parser.open_file / parse_file (io.open stubbed by an in-memory file system): the same path read again after the file was
+# rewritten must give the new content, and equals what load / loads give for that content
+import mappyfile.parser as MP
+t1 = {T} + "MAP END"
+t2 = {T2} + "LAYER END"
+fs = {{"/x/a.map": t1}}
+opened = []
+def fake_open(fn, mode="r", encoding=None):
+    opened.append((fn, mode, encoding))
+    return FP(fs[fn], fn)
+class P2(RecParser):
+    open_file = Parser.open_file           # real file-reading plumbing
+real_open = MP.open
+MP.open = fake_open
+U.Parser, U.MapfileToDict = P2, RecToDict
+try:
+    r1 = mappyfile.open("/x/a.map")
+    fs["/x/a.map"] = t2                     # e.g. after save() to the same path
+    r2 = mappyfile.open("/x/a.map")
+    r3 = mappyfile.loads(t2)
+finally:
+    from mappyfile.transformer import MapfileToDict
+    MP.open = real_open
+    U.Parser, U.MapfileToDict = Parser, MapfileToDict
+return r1 == ("DICT", ("TREE", t1)) and r2 == ("DICT", ("TREE", t2)) and r2 == r3 and opened == [("/x/a.map", "r", "utf-8")] * 2
+'''
+
 FORMAT = '''
 calls = []
 quotes = ['"', "'", '\\\\"', "\\\\'"]; spacers = [" ", "\\\\t", "\\t", "  "]; nls = ["\\n", "\\\\n", "\\\\r\\\\n", " "]
@@ -274,6 +302,10 @@ def obligations(tier, seed):
                   pct=300, timeout=400, meta={"desc": "dumps / dump / save hand the printer the same seven options and return/write the same string", "functions": ["utils.dumps", "utils.dump", "utils.save", "utils._pprint"]}))
     obs.append(Ob(name="C20-PLUMB/savefile", source=PRELUDE + harness("h", cs, conj(cpre), SAVEFILE.format(T=T)), pct=200, timeout=300,
                   meta={"desc": "_save opens one utf-8 file for writing and writes the string unchanged", "functions": ["utils._save"]}))
+    cs2 = chars("d", 2)
+    obs.append(Ob(name="C20-PLUMB/openfile", source=PRELUDE + harness("h", cs + cs2, conj(cpre + [f"okc({n})" for n, _ in cs2]), OPENFILE.format(T=T, T2=chr_expr("d", 2))),
+                  pct=300, timeout=400, meta={"desc": "real Parser.open_file/parse_file over a stubbed io.open: utf-8 text mode; a path read twice reflects the file's current content (no stale state)",
+                                              "functions": ["Parser.open_file", "Parser.parse_file", "utils.open"], "stubs": ["io.open in mappyfile.parser"]}))
     obs.append(Ob(name="C20-PLUMB/format", source=PRELUDE + harness("h", [("ind", "int"), ("spi", "int"), ("qi", "int"), ("nli", "int"), ("ex", "bool"), ("co", "bool")],
                                                                      "(spi >= 0) & (spi < 4) & (qi >= 0) & (qi < 4) & (nli >= 0) & (nli < 4)", FORMAT), pct=400, timeout=500,
                   meta={"desc": "`format` == save(open(IN, ...), OUT, decoded options); exit 0", "functions": ["cli.format"]}))
